@@ -239,6 +239,33 @@ def main():
                     v = [float(x) for x in graph.get_values()]
                     partner = None
                 traces.append(shapley_trace(tid, n, v, partner, graph))
+                # the same OBJECT evaluated again after it was changed through the public API (seed C06-e: a value cached on the object):
+                # a graph game normalised in place (its total weight is a power of two, so the normalised values stay exact), a tabulated
+                # game with one value overwritten
+                if graph is not None and j % 16 == 7:
+                    from incomplete_cooperative.normalize import normalize_game
+                    m = np.zeros((n, n))
+                    for a_ in range(n):
+                        for b_ in range(a_ + 1, n):
+                            m[a_, b_] = rng.randint(0, 4)
+                    tot = int(m.sum())
+                    m[0, n - 1] += 2 ** max(1, tot).bit_length() - tot
+                    g2 = GraphCooperativeGame(m)
+                    tid += 1
+                    traces.append(shapley_trace(tid, n, [float(x) for x in g2.get_values()], None, g2))
+                    normalize_game(g2)
+                    tid += 1
+                    traces.append(shapley_trace(tid, n, [float(x) for x in g2.get_values()], None, g2))
+                elif graph is None and j % 4 == 2:
+                    obj = full_game(n, v)
+                    list(compute_shapley_value(obj))
+                    compute_shapley_value_for_player(n - 1, obj)
+                    c = rng.randrange(1, NC)
+                    v2 = list(v)
+                    v2[c] = v2[c] + (3.0 if j % 7 != 6 else 3.0 * 2.0 ** -30)
+                    obj.set_value(v2[c], Coalition(c))
+                    tid += 1
+                    traces.append(shapley_trace(tid, n, v2, None, obj))
         else:
             if n <= a.unit_max_n:
                 for s in range(1, NC - 1):                # unit bound vectors (grand coalition known 0, empty 0)
